@@ -222,6 +222,9 @@ Inductive c19case :=
 | KExpr (blind : bool) (V : list (positive * (Qc * Qc * uc))) (e : mexpr) (expected : exprres)
 (* measurement (v ± s) u  +/-  bare ufloat (bn ± bs); [swap]: bare operand on the left *)
 | KBare (sub swap : bool) (v s : Qc) (u : uc) (bn bs : Qc) (expected : exprres)
+(* a history on one object (reads, in-place conversions, mutated returned values); what value and
+   error report at the end *)
+| KHist (v s : Qc) (u : uc) (ops : list mop) (value error : Qc) (units : uc)
 (* join_unc *)
 | KJoin (sep lpar rpar m u expected : string).
 
@@ -333,6 +336,24 @@ Section WithReg.
         | Err x, EXErr y => bool_decide (ecls_of x = y)
         | _, _ => false
         end
+    | KHist v s u ops value error units =>
+        let i := 1%positive in
+        let E : venv := {[ i := s ]} in
+        let m0 := Meas (aff_var i v) u in
+        let B := fold_left (λ (mb : meas * aff) o,
+                   match o with
+                   | OIto d => match conv_affine r (m_units mb.1) d, meas_to r mb.1 d with
+                               | Ok c, Ok m' => (m', babs_conv r (m_units mb.1) d c mb.2)
+                               | _, _ => mb
+                               end
+                   | _ => mb
+                   end) ops (m0, Aff (Qcabs v) {[ i := 1%Qc ]}) in
+        let m := mrun r m0 ops in
+        close rtol value (m_value m).1 (nom B.2) &&
+        match m_error E m with
+        | Some (x, u') => close rtol error x x && uc_eqb u' units
+        | None => false
+        end && uc_eqb (m_value m).2 units
     | KJoin sep lpar rpar m u e => String.eqb (join_unc sep lpar rpar m u) e
     end.
 End WithReg.
